@@ -73,7 +73,9 @@ var alphabet = []string{
 }
 
 // analyzer-dialect extras (padding and the "<default>" token)
-var alphabetPadded = []string{" zzProbe05", "#style ", " #experimental", "<default>", "\tappendAssign"}
+var alphabetPadded = []string{" zzProbe05", "#style ", " #experimental", "<default>", "\tappendAssign",
+	// two names or tags separated by white space only: ONE element, which names nothing
+	"zzProbe05 zzProbe63", "#style\t#performance", "appendAssign\nhugeParam", "#diagnostic #experimental", "zzProbe00  zzProbe05"}
 
 // keys that are near misses of the two key kinds: tag words without '#', checker names with '#', doubled '#',
 // case variants. None of them names anything.
@@ -225,6 +227,11 @@ func Run(tier string, seed int64, outDir string) *common.Meta {
 			reg = "all"
 		}
 		extra = append(extra, config{rng.Intn(4) == 0, randList(full), randList(full), reg})
+	}
+	// white space inside an element never separates keys
+	for _, k := range alphabetPadded[5:] {
+		extra = append(extra, config{false, sp(k), sp(""), "probe"}, config{false, sp(k), sp(""), "all"}, config{true, sp(""), sp(k), "probe"},
+			config{false, sp("zzProbe63," + k), sp(""), "probe"}, config{false, sp("#style,#diagnostic"), sp(k), "all"})
 	}
 	// near-miss spellings: alone in -enable (an empty selection unless enableAll), alone in -disable, next to a real key
 	for _, k := range alphabetSpelling {
@@ -641,8 +648,8 @@ func endToEnd(meta *common.Meta, tier string, seed int64, outDir string, names [
 	// the same -enable / -disable texts given to a CLI and to an analysis binary select the same checkers
 	// (lists as people type them: ", " and " ," separators, a leading blank after the '=')
 	seps := []string{",", ", ", " ,", " , "}
-	same := [][2]string{{" sloppyLen", ""}, {"#diagnostic, #style", "#experimental, #opinionated"}}
-	nSame := 4
+	same := [][2]string{{" sloppyLen", ""}, {"#diagnostic, #style", "#experimental, #opinionated"}, {"assignOp,dupSubExpr sloppyLen", ""}, {"#diagnostic", "#experimental\t#opinionated"}}
+	nSame := 6
 	if tier == "thorough" {
 		nSame = 40
 	}
